@@ -184,6 +184,16 @@ func (rn *runner) codecCase(k int, r *prng.R) {
 			case serr != nil && fits:
 				o.Fail("item-serialize-rejects", k, "Serialize rejects (%v) an item of %d items / %d bytes (limits %d / %d)", serr, cnt, sz, stackitem.MaxSerialized, stackitem.MaxSize)
 			}
+			if c.parse && cnt < 20000 {
+				// the serialiser against the model on every generated item, over the limits too
+				var s sb
+				showItem(&s, ib.it, 0)
+				if eb, err := encBytes(ib); err == nil {
+					o.Line("enc "+c.name+" "+s.String(), fmt.Sprintf("%s size=%d", hx.Hex(eb), len(eb)))
+				} else {
+					o.Line("enc "+c.name+" "+s.String(), "err")
+				}
+			}
 			if !fits {
 				g.invalid = true
 				o.Count("item:over-limit")
@@ -263,7 +273,7 @@ func (rn *runner) codecCase(k int, r *prng.R) {
 			}
 		}
 		o.Count("roundtrip:" + c.name)
-		if c.parse {
+		if _, isItem := v.(*itemBox); c.parse && !isItem {
 			// value -> bytes direction of the tie: the model encodes the value described by the dump
 			sz := len(b)
 			if c.size != nil {
